@@ -421,9 +421,12 @@ def edited_tree(ctx, rec, case):
                 nm = rng.choice([kids[0].name, kids[-1].name, nm])
                 ts.properties[rng.choice([0, len(kids) - 1, -1])] = odml.Property(nm, values=[step])
             elif op == "rename":
-                x.name = nm
+                sib = rng.choice(raw_secs(x.parent)).name
+                x.name = rng.choice([nm, nm, sib + " ", " " + sib])
             elif op == "prop-rename" and props:
-                rng.choice(props).name = nm
+                p = rng.choice(props)
+                sib = rng.choice(raw_props(p.parent)).name
+                p.name = rng.choice([nm, nm, sib + " ", " " + sib])
             elif op == "reorder":
                 x.reorder(rng.choice([0, -1, 1]))
             elif op == "prop-reorder" and props:
